@@ -80,10 +80,16 @@ def cli_opts(cfg):
     if cfg.get("threshold"):
         o += ["-t", "%dns" % cfg["threshold"]]
     a, b = cfg.get("range", (0, 0))
-    if a or b:
+    if (a or b) and cfg.get("range_first") is not None:
+        # elapsed form: offsets from the first timestamp of the recording (`-r 100ns~2us`)
+        first = cfg["range_first"]
+        o += ["-r", "%s~%s" % ("%dns" % (a - first) if a else "", "%dns" % (b - first) if b else "")]
+    elif a or b:
         o += ["-r", "%s~%s" % (fmt_ts(a) if a else "", fmt_ts(b) if b else "")]
     for k, v in sorted(cfg.get("loc", {}).items()):
         o += ["-L", src_file(k) + ("" if v else "@hide")]
+    for k, act in cfg.get("decor", []):          # presentation-only trigger actions: must not change the selection
+        o += ["-T", "%s@%s" % (NAMES[k], act)]
     if not cfg.get("libcall", True):
         o += ["--no-libcall"]
     return o
@@ -176,6 +182,7 @@ def fn_of(name):
 RE_OPEN = re.compile(r"^( *)([\w<>]+)\(\) \{$")
 RE_LEAF = re.compile(r"^( *)([\w<>]+)\(\);$")
 RE_CLOSE = re.compile(r"^( *)\} /\* ([\w<>]+) \*/$")
+RE_BACKTRACE = re.compile(r"^\s*/\* \[\s*\d+\] [\w<>]+ \*/$")
 
 
 def parse_replay(out):
@@ -185,6 +192,8 @@ def parse_replay(out):
             continue
         if l.startswith("uftrace stopped tracing"):
             break
+        if RE_BACKTRACE.match(l):            # -T f@backtrace: the stack of the next line's call
+            continue
         m = RE_OPEN.match(l)
         if m:
             ev.append((False, fn_of(m.group(2)), len(m.group(1)) // 2))
@@ -499,6 +508,10 @@ def gen_case(rng, kind, eq=True):
             if t in cfg["range"]:
                 tags.append("range:end-on-timestamp")
                 break
+        lo, hi = cfg["range"]
+        if rng.random() < 0.4 and (not lo or lo > first) and (not hi or hi > first):
+            cfg["range_first"] = first        # same window, given as elapsed time
+            tags.append("range:elapsed")
     if kind in ("loc", "lochide", "locmix"):
         cfg["loc"] = {}
         for _ in range(rng.choice([1, 2, 3])):
@@ -535,6 +548,10 @@ def gen_case(rng, kind, eq=True):
             trig(pick())["filter"] = True
     # drop empty triggers
     cfg["trig"] = {k: v for k, v in cfg["trig"].items() if v}
+    if kind not in ("plt", "pltleaf") and rng.random() < 0.2:
+        cfg["decor"] = [(pick(), rng.choice(["backtrace", "color=red", "color=blue,backtrace"]))
+                        for _ in range(rng.choice([1, 2]))]
+        tags.append("decor-trigger")
     # boundary tags
     thr_vals = set([cfg.get("threshold") or None] + [t.get("time") for t in cfg["trig"].values()])
     thr_vals.discard(None)
@@ -1213,7 +1230,12 @@ def corpus1():
     f1 = [C(0, 1000, 2000, [C(1, 1100, 1500, [C(2, 1200, 1400, [C(3, 1250, 1300)])]), C(4, 1600, 1700)])]
     return [("corpus:graph-time-range", {"trig": {}, "range": (1200, 1650)}, f1, ["corpus:graph-time-range"]),
             ("corpus:graph-trace-on", {"trig": {0: {"trace_off": True}, 4: {"trace_on": True}}}, f1,
-             ["corpus:graph-trace-on"])]
+             ["corpus:graph-trace-on"]),
+            # be2fe34: an elapsed end of the range must close / count the calls still open (main, alpha)
+            ("corpus:elapsed-range-open-calls", {"trig": {}, "range": (1200, 1450), "range_first": 1000}, f1,
+             ["corpus:elapsed-range-open-calls", "range:elapsed"]),
+            ("corpus:elapsed-range-stop-only", {"trig": {}, "range": (0, 1650), "range_first": 1000}, f1,
+             ["corpus:elapsed-range-stop-only", "range:elapsed"])]
 
 
 def run(ctx):
